@@ -101,7 +101,7 @@ func sphereMesh(r float64) []*sdf.Triangle3 {
 // every call of mk builds a new, identical object (same drawn parameters).
 func drawShape(t *rapid.T) (mk func() sdf.SDF3, class, desc string, ok bool) {
 	S := rapid.SampledFrom([]float64{1, 10}).Draw(t, "scale")
-	class = rapid.SampledFrom([]string{"program3", "program3", "program2", "cache2-extrude", "cache2-revolve", "voxel", "trimesh", "text", "obj"}).Draw(t, "class")
+	class = rapid.SampledFrom([]string{"program3", "program3", "program2", "cache2-extrude", "cache2-revolve", "cache2-nested", "shared-profile", "voxel", "voxel-progress", "trimesh", "text", "obj"}).Draw(t, "class")
 	fromNode := func(n *shape.Node, wrap func(b *shape.Built) sdf.SDF3) func() sdf.SDF3 {
 		return func() sdf.SDF3 {
 			b, err := shape.Build(n)
@@ -130,6 +130,36 @@ func drawShape(t *rapid.T) (mk func() sdf.SDF3, class, desc string, ok bool) {
 			}
 			return r
 		}), "revolve(cache2("+n.String()+"))"
+	case "cache2-nested":
+		// a cached profile cached again, BOTH wrappers in the model (two parts made from one sketch)
+		n := shape.Gen2(t, shape.Opts{S: S, Depth: rapid.IntRange(0, 2).Draw(t, "depth"), Grammar: shape.Lipschitz})
+		mk, desc = fromNode(n, func(b *shape.Built) sdf.SDF3 {
+			c1 := sdf.Cache2D(b.SDF2())
+			c2 := sdf.Cache2D(c1)
+			return sdf.Union3D(sdf.Extrude3D(c1, S), sdf.Transform3D(sdf.Extrude3D(c2, S), sdf.Translate3d(v3.Vec{Z: 1.5 * S})))
+		}), "union3(extrude(c1), translate(extrude(cache2(c1)))) with c1 = cache2("+n.String()+")"
+	case "shared-profile":
+		// one 2D object used by two 3D parts of the model
+		n := shape.Gen2(t, shape.Opts{S: S, Depth: rapid.IntRange(1, 3).Draw(t, "depth"), Grammar: shape.Full, Special: true, NoText: true})
+		mk, desc = fromNode(n, func(b *shape.Built) sdf.SDF3 {
+			p2 := b.SDF2()
+			r, err := sdf.Revolve3D(p2)
+			if err != nil {
+				return nil
+			}
+			return sdf.Union3D(sdf.Extrude3D(p2, S), sdf.Transform3D(r, sdf.Translate3d(v3.Vec{Z: 4 * S})))
+		}), "union3(extrude(p), translate(revolve(p))) with p = "+n.String()
+	case "voxel-progress":
+		// the voxel cache built with a progress listener (a buffered channel nobody has to drain)
+		n := shape.Gen3(t, shape.Opts{S: S, Depth: rapid.IntRange(0, 1).Draw(t, "depth"), Grammar: shape.Lipschitz})
+		cells := rapid.IntRange(2, 8).Draw(t, "cells")
+		mk, desc = fromNode(n, func(b *shape.Built) sdf.SDF3 {
+			sz := b.SDF3().BoundingBox().Size()
+			if sz.MinComponent() < 1.01*sz.MaxComponent()/float64(cells) {
+				return nil
+			}
+			return sdf.NewVoxelSDF3(b.SDF3(), cells, make(chan float64, 4*cells+8))
+		}), fmt.Sprintf("voxel(%d, %s, progress listener)", cells, n)
 	case "voxel":
 		n := shape.Gen3(t, shape.Opts{S: S, Depth: rapid.IntRange(0, 1).Draw(t, "depth"), Grammar: shape.Lipschitz})
 		cells := rapid.IntRange(2, 8).Draw(t, "cells")
